@@ -271,9 +271,159 @@ def update_bs_scenarios(run):
             run.oracle_ok("walk-ext")
 
 
+def lazy_root(rng):
+    """a lazily stacked ROOT: 2-3 members with the same keys (tensors, a nested tensordict, sometimes a non-tensor), stacked along a
+    random dim, sometimes named"""
+    from tensordict import LazyStackedTensorDict, NonTensorData, TensorDict
+    mbs = [rng.choice([1, 2, 3]) for _ in range(rng.randint(0, 2))]
+    n = rng.randint(2, 3)
+
+    def member():
+        d = {"a": torch.zeros(mbs + [rng.choice([1, 2])][:rng.randint(0, 1)] if False else mbs + [2]), "b": torch.zeros(mbs)}
+        td = TensorDict(d, batch_size=mbs)
+        td.set("n", TensorDict({"x": torch.zeros(mbs + nx + [1])}, batch_size=mbs + nx))
+        return td
+    nx = [rng.choice([2, 3])] if rng.random() < 0.5 else []      # the nested tensordict may have more batch dims than its member
+    members = [member() for _ in range(n)]
+    if rng.random() < 0.3:
+        for m in members:
+            m.set("nt", NonTensorData("s", batch_size=mbs))
+    dim = rng.randint(0, len(mbs))
+    ls = LazyStackedTensorDict.lazy_stack(members, dim)
+    if rng.random() < 0.3 and ls.batch_dims:
+        try:
+            ls.names = [rng.choice(O.NAMEPOOL[:3]) if q == 0 else None for q in range(ls.batch_dims)]
+        except Exception:  # noqa
+            pass
+    return ls
+
+
+def tc_root(rng):
+    bs = [rng.choice([1, 2, 3]) for _ in range(rng.randint(0, 2))]
+    from tensordict import TensorDict
+    obj = tc_cls()(u=torch.zeros(bs + [1]), w=torch.zeros(bs), batch_size=bs)
+    return obj
+
+
+def root_op(rng, root, kind):
+    """one mutating call on a lazy-stack / tensorclass root; returns (name, thunk)"""
+    from tensordict import TensorDict
+    bs = list(root.batch_size)
+
+    def t(ok=0.7, extra=None):
+        sh = O.gen_shape_ext(rng, bs, 0, 2) if extra is None else bs + extra
+        if rng.random() > ok:
+            sh = O.mutate_shape(rng, sh)
+        return torch.zeros(sh)
+    keys = [k for k in root.keys()] if hasattr(root, "keys") else []
+    key = rng.choice(keys) if keys and rng.random() < 0.6 else rng.choice(O.KEYS + ["n", "u", "w"])
+    nkey = (key, rng.choice(["x", "y"])) if rng.random() < 0.3 else key
+    if rng.random() < 0.25:
+        nkey = ("n", rng.choice(["x", "y"]))      # below the nested tensordict every member holds
+
+    def idx():
+        return rnd_index(rng, root)
+    choices = [
+        ("set", lambda: root.set(nkey, t())),
+        ("set_nested", lambda: root.set(key, TensorDict({"y": t(0.8)}, batch_size=O.mutate_shape(rng, bs) if rng.random() < 0.3 else bs))),
+        ("set_", lambda: root.set_(key, t())),
+        ("set_at_", lambda: root.set_at_(key, t(0.8), idx())),
+        ("setitem_key", lambda: root.__setitem__(nkey, t())),
+        ("setitem_index", lambda: root.__setitem__(idx(), TensorDict({key: t(0.8)}, batch_size=[]).expand(bs) if rng.random() < 0.5 else root.clone())),
+        ("setitem_index_new_key", lambda: root.__setitem__(idx(), {"zz": t(0.8)})),
+        ("update_dict", lambda: root.update({key: t(), "q": t(0.5)})),
+        ("update_", lambda: root.update_({key: t(0.8)})),
+        ("update_at_", lambda: root.update_at_({key: t(0.8)}, idx())),
+        ("del", lambda: root.del_(key)),
+        ("pop", lambda: root.pop(key, None)),
+        ("rename", lambda: root.rename_key_(key, rng.choice(O.KEYS))),
+        ("batch_size", lambda: setattr(root, "batch_size", O.mutate_shape(rng, bs) if rng.random() < 0.6 else O.gen_shape_ext(rng, bs, 1, 1))),
+        ("names", lambda: setattr(root, "names", O.gen_names(rng, len(bs), 0.8))),
+        ("refine_names", lambda: root.refine_names(*[rng.choice(O.NAMEPOOL + [None]) for _ in range(len(bs))])),
+        ("auto_batch_size_", lambda: root.auto_batch_size_(rng.choice([None, 1, 2]))),
+        ("create_nested", lambda: root.create_nested(rng.choice(O.KEYS))),
+        ("setdefault", lambda: root.setdefault(key, t())),
+        ("exclude", lambda: root.exclude(key, inplace=True)),
+        ("select", lambda: root.select(key, inplace=True)),
+    ]
+    def named_td():
+        v = TensorDict({"y": t(0.85)}, batch_size=bs)
+        if bs and rng.random() < 0.6:
+            v.names = [rng.choice(O.NAMEPOOL[:3]) if q == 0 else None for q in range(len(bs))]
+        return v
+    choices += [
+        ("set_named_td", lambda: root.set(rng.choice(O.KEYS), named_td())),
+        ("update_td", lambda: root.update(TensorDict({key: t(0.8), "n": TensorDict({"x": t(0.7), "zz": t(0.7)}, batch_size=bs)}, batch_size=bs))),
+        ("rename_into_nested", lambda: root.rename_key_(key, ("n", rng.choice(O.KEYS)))),
+        ("rename_out_of_nested", lambda: root.rename_key_(("n", "x"), rng.choice(O.KEYS))),
+        ("del_nested", lambda: root.del_(("n", rng.choice(["x", "y"])))),
+        ("nested_handle_set", lambda: root.get("n").set(rng.choice(["x", "y", "q"]), t(0.7))),
+        ("nested_handle_names", lambda: setattr(root.get("n"), "names", O.gen_names(rng, len(root.get("n").batch_size), 0.9))),
+        ("nested_handle_setitem_index", lambda: root.get("n").__setitem__(idx(), {"q": t(0.8)})),
+        ("flatten_keys", lambda: root.flatten_keys(inplace=True)),
+        ("unflatten_keys", lambda: root.unflatten_keys(inplace=True)),
+        ("popitem", lambda: root.popitem()),
+        ("clear", lambda: root.clear() if rng.random() < 0.3 else None),
+    ]
+    if kind == "lazy-root":
+        mbs = list(root.tensordicts[0].batch_size)
+        choices += [
+            ("append", lambda: root.append(TensorDict({"a": torch.zeros((mbs if rng.random() < 0.7 else O.mutate_shape(rng, mbs)) + [2]), "b": torch.zeros(mbs),
+                                                       "n": TensorDict({"x": torch.zeros(mbs + [1])}, mbs)}, batch_size=mbs if rng.random() < 0.7 else O.mutate_shape(rng, mbs)))),
+            ("insert", lambda: root.insert(rng.randint(0, 3), TensorDict({"a": torch.zeros(mbs + [2]), "b": torch.zeros(mbs), "n": TensorDict({"x": torch.zeros(mbs + [1])}, mbs)},
+                                                                         batch_size=mbs if rng.random() < 0.7 else O.mutate_shape(rng, mbs)))),
+            ("member_batch_size", lambda: setattr(root.tensordicts[0], "batch_size", O.mutate_shape(rng, mbs))),
+        ]
+    else:
+        choices += [
+            ("setattr", lambda: setattr(root, rng.choice(["u", "w"]), t())),
+        ]
+    return rng.choice(choices)
+
+
+def root_streams(run, rng, n):
+    """the property's other container kinds as ROOTS (oracle only): a lazily stacked tensordict and a tensorclass"""
+    for kind, mk in (("lazy-root", lazy_root), ("tc-root", tc_root)):
+        for hid in range(n):
+            try:
+                root = mk(rng)
+                if O.walk_coherent(root):
+                    continue
+            except Exception:  # noqa
+                continue
+            for stepno in range(rng.randint(1, 12)):
+                try:
+                    name, thunk = root_op(rng, root, kind)
+                except Exception:  # noqa
+                    continue
+                if kind == "lazy-root" and name == "member_batch_size":
+                    # a member resized through a direct handle: the documented exclusion (the stack has no hook on its members)
+                    continue
+                out = "ok"
+                try:
+                    with O.time_limit(10):
+                        thunk()
+                except TimeoutError:
+                    raise
+                except Exception as e:  # noqa
+                    out = "raised:" + O.cls_of(e)
+                run.count("ops.extended", kind + ":" + name)
+                try:
+                    viol = O.walk_coherent(root)
+                except Exception as e:  # noqa
+                    viol = [f"cannot be walked: {type(e).__name__}: {str(e)[:100]}"]
+                if viol:
+                    run.oracle_fail("walk-ext", {"container": kind, "history": hid, "step": stepno, "op": name, "batch_size": list(root.batch_size) if not viol[0].startswith("cannot") else None},
+                                    f"after {name} ({out}): " + "; ".join(viol[:3]),
+                                    f"{kind}:names-mismatch" if all("cannot be read" in v for v in viol) else f"{kind}:{name}:{out}")
+                    break
+                run.oracle_ok("walk-ext")
+
+
 def run_extended(run, rng):
     fixed_scenarios(run)
     update_bs_scenarios(run)
+    root_streams(run, rng, 60 if run.tier == "quick" else 600)
     refusal_scenarios(run, rng, 300 if run.tier == "quick" else 3000)
     nh = 500 if run.tier == "quick" else 5000
     for hid in range(nh):
